@@ -99,6 +99,10 @@ func (r *Runner) Evaluate(sc Scenario, pushedPlain map[int]bool) {
 		// no scenario makes a channel inaccessible, so a worker must never stop
 		c.Fail(strings.ToLower(r.Opt.Prop)+"-channel-worker-stopped", line, fmt.Sprintf("the worker of channel %d returned from Run although the channel stayed accessible: its updates are no longer handled; trace: %s", dc, FormatTrace(out.Trace)))
 	}
+	if slow := out.Elapsed - time.Duration(countW(all))*650*time.Millisecond; slow > 3*time.Second {
+		c.Count("harness.slow-scenario")
+		c.Note("harness: scenario took %v: %s", out.Elapsed.Round(time.Millisecond), line)
+	}
 	if out.Workers != "" {
 		c.Fail(strings.ToLower(r.Opt.Prop)+"-channel-workers", line, out.Workers+"; trace: "+FormatTrace(out.Trace))
 	}
@@ -174,7 +178,13 @@ func (r *Runner) Evaluate(sc Scenario, pushedPlain map[int]bool) {
 		}
 	}
 	never := func(int64) bool { return false }
-	fc := storedWord(liveStored, never) + " " + createdWord(out.World.Created, never)
+	liveCreated := map[int64]int{}
+	for ch, v := range out.World.Created {
+		if out.World.live[ch] {
+			liveCreated[ch] = v
+		}
+	}
+	fc := storedWord(liveStored, never) + " " + createdWord(liveCreated, never)
 	p := pending{line: line, input: line, impl: impl, world: out.World,
 		compare:  out.Elapsed-time.Duration(countW(all))*650*time.Millisecond < 400*time.Millisecond,
 		implSafe: len(v3) == 0, implDone: len(v2) == 0, wantWF: true,
@@ -350,7 +360,7 @@ func ownerOfWord(w *World, word string) string {
 	switch {
 	case word == "L" || strings.HasPrefix(word, "S:pts") || strings.HasPrefix(word, "S:qts") || strings.HasPrefix(word, "S:state") || strings.HasPrefix(word, "A:diff"):
 		return "main"
-	case strings.HasPrefix(word, "L:"):
+	case strings.HasPrefix(word, "L:"), strings.HasPrefix(word, "I:"):
 		return word[2:]
 	case strings.HasPrefix(word, "S:c"):
 		return word[2:strings.Index(word, "=")]
@@ -536,6 +546,20 @@ func Fixed() []Scenario {
 		{P0: 10, Q0: 0, C0: map[int64]int{5: 5, 8: 20}, Fresh: map[int64]bool{8: true}, Late: map[int64]bool{5: true, 8: true}, Log: []Entry{{ID: 1, Kind: KChMsg, Chan: 5, Pos: 6, Count: 1}, {ID: 2, Kind: KChMsg, Chan: 8, Pos: 21, Count: 1},
 			{ID: 3, Kind: KChMsg, Chan: 5, Pos: 7, Count: 1}, {ID: 4, Kind: KChMsg, Chan: 8, Pos: 22, Count: 1}},
 			Actions: []Action{{Op: "p", IDs: []int{1}}, {Op: "p", IDs: []int{2}}, {Op: "K", C: 5}, {Op: "K", C: 8}, {Op: "p", IDs: []int{3}}, {Op: "p", IDs: []int{4}}}},
+		// a channel becomes inaccessible: its next difference is answered CHANNEL_PRIVATE, the worker reports
+		// it and stops, the main loop forgets the channel. An update met while it is still inaccessible
+		// starts a worker that stops at once; when it is accessible again the new worker starts from the
+		// stored pts and recovers everything missed
+		{P0: 10, Q0: 0, C0: map[int64]int{5: 5}, Log: []Entry{{ID: 1, Kind: KChMsg, Chan: 5, Pos: 6, Count: 1}, {ID: 2, Kind: KChMsg, Chan: 5, Pos: 7, Count: 1},
+			{ID: 3, Kind: KChMsg, Chan: 5, Pos: 8, Count: 1}, {ID: 4, Kind: KChMsg, Chan: 5, Pos: 9, Count: 1}, {ID: 5, Kind: KMsg, Pos: 11, Count: 1}},
+			Actions: []Action{{Op: "p", IDs: []int{1}}, {Op: "PRIV", C: 5}, {Op: "e", N: 1}, {Op: "CT", C: 5}, {Op: "p", IDs: []int{3}}, {Op: "z", C: 5}, {Op: "p", IDs: []int{5}},
+				{Op: "PUB", C: 5}, {Op: "p", IDs: []int{4}}}},
+		// … found out by the gap timer's difference, with updates buffered; a channel met for the first
+		// time in this run goes the same way and comes back with what was written for it
+		{P0: 10, Q0: 0, C0: map[int64]int{5: 5, 8: 20}, Fresh: map[int64]bool{8: true}, Log: []Entry{{ID: 1, Kind: KChMsg, Chan: 5, Pos: 6, Count: 1}, {ID: 2, Kind: KChMsg, Chan: 5, Pos: 7, Count: 1},
+			{ID: 3, Kind: KChMsg, Chan: 8, Pos: 21, Count: 1}, {ID: 4, Kind: KChMsg, Chan: 8, Pos: 22, Count: 1}, {ID: 5, Kind: KChMsg, Chan: 8, Pos: 23, Count: 1}},
+			Actions: []Action{{Op: "PRIV", C: 5}, {Op: "p", IDs: []int{2}}, {Op: "F"}, {Op: "p", IDs: []int{3}}, {Op: "PRIV", C: 8}, {Op: "e", N: 1}, {Op: "CT", C: 8},
+				{Op: "PUB", C: 8}, {Op: "PUB", C: 5}, {Op: "p", IDs: []int{5}}, {Op: "p", IDs: []int{2}}}},
 		// a message from a user whose access hash is unknown: the whole container (a channel update and a
 		// position-less update with it) is dropped and the difference fetched; it brings the message and
 		// the user, so that user's next message passes; another user is made known by U; a third is not
